@@ -21,7 +21,9 @@ NSrc == 2 + NPlugins                       \* 1 = environment, 2 = code, 3.. = p
 Builtin == 0                               \* owner of the SDK keys and of the service-name fallback
 Unset == 99
 
-VARIABLES srcs,    \* srcs[i] = [keys, schema, blank, emptyVar] of source i (environment's schema is always "");
+VARIABLES srcs,    \* srcs[i] = [keys, schema, blank, emptyVar, encoded] of source i (environment's schema is always "");
+                   \*   encoded (environment only): the values in DEEP_RESOURCE_ATTRIBUTES are percent-encoded and hold
+                   \*   "," "=" and blanks once decoded - a value is decoded AFTER the list was split, it stays one value
                    \*   blank: the service name it provides is an empty string
                    \*   emptyVar (environment only): DEEP_SERVICE_NAME is exported but empty while the name comes from
                    \*   DEEP_RESOURCE_ATTRIBUTES - an empty variable is an unset variable, it changes nothing
@@ -37,13 +39,14 @@ Init == srcs = <<>> /\ pc = 0 /\ acc = [owner |-> [k \in Keys |-> Unset], schema
         /\ blankSvc = FALSE
         /\ kept = {}
 
-Provide(ks, sc, bl, ev) ==
+Provide(ks, sc, bl, ev, en) ==
     /\ pc = 0 /\ Len(srcs) < NSrc
     /\ (ev => (Len(srcs) = 0 /\ "svc" \in ks /\ ~bl))
+    /\ (en => (Len(srcs) = 0 /\ ks \cap {"k1", "k2"} # {}))
     /\ (Len(srcs) = 0 => sc = "")
     /\ (bl => ("svc" \in ks /\ Len(srcs) < 2))     \* only the environment or the code can supply an empty name here
     /\ ((NoCode /\ Len(srcs) = 1) => (ks = {} /\ sc = "" /\ ~bl))
-    /\ srcs' = Append(srcs, [keys |-> ks, schema |-> sc, blank |-> bl, emptyVar |-> ev])
+    /\ srcs' = Append(srcs, [keys |-> ks, schema |-> sc, blank |-> bl, emptyVar |-> ev, encoded |-> en])
     /\ UNCHANGED <<pc, acc, blankSvc, fellBack, kept>>
 
 Begin == pc = 0 /\ Len(srcs) = NSrc /\ pc' = 1 /\ UNCHANGED <<srcs, acc, blankSvc, fellBack, kept>>
@@ -70,7 +73,8 @@ MergeNext ==
     /\ pc' = pc + 1
     /\ UNCHANGED srcs
 
-Next == (\E ks \in SUBSET Keys, sc \in Schemas, bl \in BOOLEAN, ev \in BOOLEAN : Provide(ks, sc, bl, ev)) \/ Begin \/ MergeNext
+Next == (\E ks \in SUBSET Keys, sc \in Schemas, bl \in BOOLEAN, ev \in BOOLEAN, en \in BOOLEAN : Provide(ks, sc, bl, ev, en))
+        \/ Begin \/ MergeNext
         \/ (pc = NSrc + 1 /\ UNCHANGED vars)
 
 Spec == Init /\ [][Next]_vars
